@@ -425,6 +425,27 @@ def run(ck):
         ck.require("handled/covered", "ctor/half_precision")
         from .. import history
         history.lifecycle(ck)          # operations on operands that went through deepcopy / pickle / save+load
+        # reduced precision: an operation that runs on float16 / bfloat16 operands returns the dtype of its operands
+        # (an operation that cannot work in half precision may raise - recorded, not judged)
+        rngh = ck.rng("half-ops")
+        for prop_ in history.ALL_PROPS:
+            for (name, kx, kaux, f) in history.ops_for(prop_):
+                for dt in (torch.float16, torch.bfloat16):
+                    X32 = history._fresh(kx, history._make(kx, rngh, (3,), torch.float32))
+                    a32 = history._aux_for(kaux, rngh, (3,), torch.float32)
+                    Xh = X32.to(dt)
+                    ah = None if a32 is None else a32.to(dt)
+                    try:
+                        out = f(Xh, ah)
+                    except Exception:
+                        ck.note_add("half_precision_operation_raised/" + name, 1)
+                        continue
+                    t_ = out.tensor() if isinstance(out, pp.LieTensor) else out
+                    ck.count("handled", f"half-op/{name}", key=(name, str(dt)))
+                    ck.check(isinstance(t_, torch.Tensor) and t_.dtype == dt, "handled", f"half-op/{name}", name, "result_dtype_differs_from_operand_dtype",
+                             {"op": name, "operand_dtype": str(dt), "result_dtype": str(getattr(t_, "dtype", None))})
+                    ck.mark("half-op/ran")
+        ck.require("half-op/ran")
     if ck.shard == 1 % ck.nshards:
         from .c06_purity import purity_monitor
         purity_monitor(ck, g)
